@@ -1,4 +1,14 @@
-"""C31 (redaction half) — fetch errors never contain URL userinfo, query strings or fragments.
+"""C31 — redaction half (engine sx) and the probe + single-GET half of the bounded fetch (engine xh).
+
+Bounded fetch (items at the end of this file): the real `_fetch_with_probe` / `_head_probe` /
+`_request_following_redirects` / `_read_response_body` coroutines are driven without an event loop
+against a scripted in-memory origin whose behaviour is symbolic (HEAD ok or refused, declared
+Content-Length absent / smaller / larger than what the GET delivers, chunk size, HEAD and GET
+redirect chains, one validator-rejected redirect target): the client never pulls more than
+max_fetch_bytes + one chunk, returns exactly the object or fails, follows at most max_redirects
+redirects and never contacts a rejected URL.  Replay = the same scenario under asyncio.run.
+
+Redaction half — fetch errors never contain URL userinfo, query strings or fragments.
 
 Engine `sx` (harness/_sx.py: z3-backed char-array strings; the real functions and the real
 urllib.parse run natively on them; CrossHair cannot execute urlsplit on symbolic strings within a
@@ -35,10 +45,13 @@ BOUNDS = (
     "frag over 'PQS#?/' len 2 or absent; validator message in 3 forms" % (_K, _K)
 )
 OUTSIDE = (
-    "redirect chains, range probes, hedging, byte limits, log records (asyncio/aiohttp: not encoded); percent-encoded secrets ('%' excluded: "
+    "the parallel range path and hedging (_fetch_chunks_with_hedging needs a running event loop: asyncio.wait/tasks), the pre-signed Range-probe path, "
+    "decompression caps (codec contract, see C18), real aiohttp/sockets, log records; objects > 16 bytes in the scripted origin; percent-encoded secrets ('%' excluded: "
     "urllib's unquote goes through `re`); non-ASCII; validators whose message embeds a *transformed* URL; longer parts than stated"
 )
 ASSUMPTIONS = [
+    "scripted origin := in-memory aiohttp.ClientSession stand-in (head/get coroutines, response.status/headers/content.iter_chunked/content.read/read/release); "
+    "every await completes immediately, so the coroutine is driven with send(None); an await that really suspends makes the item INCONCLUSIVE",
     "sx string model: ASCII char arrays with z3 Int code points (harness/_sx.py); validated each run against real str and, through the real redact_url/_validate_url, on random concrete URLs",
     "redact_url and _validate_url contain f-strings / str(exc): they are run from their live source with JoinedStr desugared to concatenation and str(x) -> identity on symbolic strings (sx.load); urllib.parse runs as the same bytecode",
     "validator := callback raising ValueError whose message embeds the URL (plain / quoted) or its user, password and query value",
@@ -494,6 +507,7 @@ def _replay_fetch(a: dict) -> str | None:
     """The same scripted origin through asyncio.run on the unmodified function (a real event loop)."""
     import asyncio
 
+    a = {**{"head_ok": True, "has_cl": True, "declared": 2, "delivered": 2, "chunk": 2, "cap": 8, "head_hops": 0, "get_hops": 0, "max_redirects": 5, "bad_hop": -1}, **a}
     saved = globals()["_drive_coro"]
     globals()["_drive_coro"] = lambda coro: asyncio.run(coro)
     try:
